@@ -13,7 +13,10 @@ EXPLANATION = "per-configuration independence of the eager loop proved as a fram
 
 def run(tier="quick", seed=0):
     obs = [frame.loop_reset("abtem/multislice.py", "multislice_and_detect", 0, "waves", PROPERTY,
-                            "incident-wave-reset-per-configuration")]
+                            "incident-wave-reset-per-configuration"),
+           # every detection (entrance plane and exit planes) is made once per configuration, inside the configuration loop
+           frame.calls_inside_loop("abtem/multislice.py", "multislice_and_detect", "_update_measurements", 0, PROPERTY,
+                                   "every-detection-inside-the-configuration-loop")]
     return dict(obligations=obs, functions=[o["function"] for o in obs if o.get("function")],
                 trusted_base=["frame analysis: freshness rules and mutator table of pyvc/frame.py",
                               "Waves.copy() returns an independent copy (ASSUMED)"],
